@@ -1,5 +1,5 @@
 #!/bin/bash
-# /verif/e7_seedsim/run.sh C42 [--tier quick|thorough] [--replay <file>] [--runs N] [--seed S]
+# /verif/e7_seedsim/run.sh C42 [--tier quick|thorough] [--replay <file>] [--runs N] [--seed S] [--no-hydro]
 # Builds the hash-seed shim and the engine (offline, own target dir), then runs the check.
 # exit 0 = held; 1 = VIOLATION reproduced from its replay file; 2 = harness/build error.
 set -u
@@ -8,8 +8,10 @@ export CARGO_NET_OFFLINE=true
 if ! ./build_shim.sh; then
   echo "HARNESS: building shim.so failed (this is a harness/build error, not a violation)" >&2; exit 2
 fi
+pkgs="-p e7_seedsim"
+case " $* " in *" --no-hydro "*) ;; *) [ -z "${VERIF_E7_NO_HYDRO:-}" ] && pkgs="$pkgs -p compile_dump_hydro" ;; esac
 log="$(mktemp /var/tmp/verif-build-e7-XXXXXX.log)"
-if ! cargo build --release --offline >"$log" 2>&1; then
+if ! cargo build --release --offline $pkgs >"$log" 2>&1; then
   echo "HARNESS: build of e7_seedsim failed (this is a harness/build error, not a violation):" >&2
   tail -40 "$log" >&2; rm -f "$log"; exit 2
 fi
